@@ -34,6 +34,7 @@ def dumps():
          r(22, 5, 'PERF_THD_Data', 0, (10, 5, 0, 0)), r(23, 5, 'PERF_Event', 2),
          r(24, 5, 'BSC_lseek', 1, (3, 0, 0, 0)), r(25, 5, 'BSC_lseek', 2, (0, 2 ** 64 - 1, 0, 0)),
          r(26, 5, 'TRACE_DATA_NEWTHREAD', 0, (77, 10, 0, 0)),                      # data record whose name record never comes
+         struct.pack('<Q32sQIIQ', 26, bytes(32), 5, 0x00040008, 0, 0),            # an event of class 0, subclass 4 (no name in the table)
          r(27, 5, 'BSC_read', 1, (3, 0x16b000000, 111, 0))]                        # START left open at the end of the dump
     b = [r(10, 5, 'BSC_read', 2, (0, 50, 0, 0)),                                  # END without START in this dump
          r(11, 5, 'TRACE_STRING_NEWTHREAD', 0, text=b'Safari'),                   # name record without data record in this dump
@@ -182,6 +183,17 @@ def same_object_histories():
                 k = next((i for i in range(max(len(got), len(want))) if i >= len(got) or i >= len(want) or got[i] != want[i]), 0)
                 return {'violates': True, 'what': '%s of dump %s on a parser object that served earlier requests differs from a fresh parser object: item %d is %r, '
                                                   'a fresh object reports %r' % (meth, d, k, got[k] if k < len(got) else None, want[k] if k < len(want) else None)}
+    # the caller appends to the default filter lists of a new object
+    for attr, value in (('filter_class', 4), ('filter_subclass', 0x040c), ('filter_class', 0x0004)):
+        p = _pk()
+        getattr(p, attr).append(value)
+        f = _pk()
+        setattr(f, attr, [value])
+        for meth in ('kevents', 'traces'):
+            got, want = _listing(p, meth, D['A']), _listing(f, meth, D['A'])
+            if got != want:
+                return {'violates': True, 'what': '%s after appending %#x to the default %s of a new parser object lists %d items, a parser object whose %s was '
+                                                  'set to [%#x] lists %d: %r / %r' % (meth, value, attr, len(got), attr, value, len(want), got[:3], want[:3])}
     # the caller edits the filter lists in place between two requests
     p, steps = _pk(), [([4], []), ([4, 7], []), ([7], [0x040c]), ([], []), ([31], [])]
     p.filter_class, p.filter_subclass = [], []
